@@ -28,11 +28,11 @@ COMP = Component(
 
 def run(rep):
     thorough = rep.tier == "thorough"
-    depths = range(1, 10) if thorough else [1, 2, 3, 4, 5, 7, 8]
+    depths = list(range(1, 14)) + [16, 20] if thorough else [1, 2, 3, 4, 5, 6, 7, 8, 12]
     standard_check(COMP, rep, trace_cfgs=[{"depth": d} for d in depths],
                    seeds_per_cfg=12 if thorough else 3, cycles=800 if thorough else 250)
     rep.coverage["rule"] = ("MC: depths 1-3, data {1,2}, all call sets; S->C: every model edge; C->S: random histories, "
-                            "depths up to 9 incl. non-powers of two; distinct_nontrivial = model edges replayed")
+                            "depths up to 12 (thorough 20) incl. odd and even non-powers of two; distinct_nontrivial = model edges replayed")
     rep.coverage["evaluations"] = rep.coverage.get("impl_cycles", 0) + rep.coverage.get("replay_cycles", 0)
     rep.coverage["distinct_nontrivial"] = rep.coverage.get("edges_total", 0)
     rep.assumptions += ["Amaranth Python simulator is faithful to the elaborated netlist"]
